@@ -170,9 +170,11 @@ PROPERTIES = {
                             dict(func="VerifC07Unwrap", reach=["C07/unwrap/decided"], quick=dict(budget=100), thorough=dict(budget=300))]),
             dict(mode="G", load_pkgs=["./internal/tsservergen"], pkgpath=MOD + "/internal/tsservergen", test_pkg="./internal/tsservergen", test_pkgname="tsservergen",
                  init=DEFAULT_INIT,
-                 overlay={"internal/tsservergen/zz_verif_c07.go": "harness/c07/c07_server.go"},
+                 overlay={"internal/tsservergen/zz_verif_c07.go": "harness/c07/c07_server.go",
+                          "internal/tscommon/zz_verif_c07.go": "harness/c07/c07_types.go", "internal/tscommon/zz_verif_c06w.go": "harness/c06/c06_wire.go@tscommon"},
                  harnesses=[dict(func="VerifC07HandlerArg", reach=["C07/handler/decided", "C07/handler/non-string-path"], quick=dict(budget=100), thorough=dict(budget=300)),
-                            dict(func="VerifC07SameDeclarations", reach=["C07/decls/decided"], quick=dict(budget=200), thorough=dict(budget=600))]),
+                            dict(func="VerifC07SameDeclarations", reach=["C07/decls/decided"], quick=dict(budget=200), thorough=dict(budget=600)),
+                            dict(func="VerifC07ResultType", reach=["C07/result/decided"], quick=dict(budget=60), thorough=dict(budget=200))]),
         ],
         bounds_text={"quick": "types: one message with one field of any of 17 kinds (enum with proto or symbolic custom value names [a-z0-9]{1,3}, Timestamp x 5 formats, child message) x singular/optional(+nullable)/repeated/map<string,T> x int64/enum/bytes encodings/empty_behavior; flatten with 4 prefixes and a proto3-optional (nullable or not) child field; discriminated oneof (2 variants, message/scalar, nested/flattened, custom values); root list/map unwrap and map-value unwrap; handler argument: GET/DELETE route with a path variable and a query parameter of 10 scalar kinds each (int64_encoding NUMBER on the query field); declarations: both complete TS generators on one file with a response field of 8 kinds x repeated/optional/nullable/flatten/encodings"},
         assumptions=["the wire form is the documented mapping M (DESIGN.md Appendix A); that the emitted Go code produces M is C04/C05's obligation",
